@@ -156,6 +156,31 @@ CHECKS = {
             rapid("random", "TestC10Random", {"checks": 25000, "shards": 4}, {"checks": 250000, "shards": 16, "timeout": 6000}),
         ],
     },
+    "C11": {
+        "technique": "rapid random generation of null-free pairs, translation validated against the RFC 7386 pseudocode (independent implementation)",
+        "level_text": "Merge-mode diffs of generated null-free, unequal pairs are rendered as JSON Merge Patch and applied to a by a 12-line transcription of "
+                      "the RFC 7386 pseudocode; the result must equal b under the array reading in force. Exploration over sampled pairs.",
+        "level_note": "Trusts ref.MergePatch. Equality is decided by canonical forms under the reading (disagreement with jd's Equals is counted).",
+        "rule": "(a, b) null-free, mostly object roots up to depth 4, b = 1-5 edits of a / {} / independent, empty objects sprinkled on both sides, under merge, set+merge, mset+merge; "
+                "pairs that are Equal are skipped. Non-trivial: the patch contains a null or an empty object, or a container is replaced by a non-container (or vice versa); distinct by (a, b, options).",
+        "assumptions": ["documents are null-free as the statement requires (null cannot be expressed in a merge patch)"],
+        "legs": [
+            rapid("random", "TestC11Random", {"checks": 30000, "shards": 4}, {"checks": 300000, "shards": 16, "timeout": 6000}),
+        ],
+    },
+    "C12": {
+        "technique": "exhaustive enumeration of a small (target, patch) grammar + rapid random generation, differential oracle = RFC 7386 pseudocode",
+        "level_text": "Every (target, patch) pair over the grammar v ::= 1 | null | [1] | {} | {a:v} | {a:v,b:v} to depth 2 is read and applied by jd and by the RFC 7386 "
+                      "pseudocode and the results must be identical; larger documents with injected nulls and empty objects are sampled. Complete for the enumerated grammar, exploration beyond it.",
+        "level_note": "Trusts ref.MergePatch. Two root-level corner cases are listed findings (D16: patch null; D17: patch {} on a non-object target) and are excluded by construction of the verdict, counted in excluded_known.",
+        "rule": "exhaustive leg: all ordered pairs of the 604 grammar values (thorough: leaf \"s\" added); random leg: targets = objects (70%) or any document, patch = Edit(target) with nulls and {} injected at drawn depths and new keys, "
+                "or an independent value. Non-trivial: the patch contains a null or a nested {} , or it is an object applied to a non-object; distinct by (target, patch).",
+        "assumptions": ["array values in results are compared as ordered lists"],
+        "legs": [
+            enum("exhaustive", "TestC12Exhaustive", {"shards": 8}, {"shards": 16, "timeout": 6000}),
+            rapid("random", "TestC12Random", {"checks": 30000, "shards": 4}, {"checks": 300000, "shards": 16, "timeout": 6000}),
+        ],
+    },
     "C06": {
         "technique": "exhaustive enumeration of small array pairs + rapid random generation, oracle = independent LCS optimum and reference hunk interpreter",
         "level_text": "Every ordered pair of arrays over a small alphabet up to a length bound is enumerated (complete for that universe) and "
